@@ -17,6 +17,10 @@ from .hexsys import V, apply_op
 from .ref import mpt
 
 
+class SnapshotNotIndependent(Exception):
+    pass
+
+
 class SharedDbSys:
     def __init__(self, *, universe="H4", values=("S", "L"), seed=0, batch2=8, depth=3):
         self.kw = dict(universe=universe, values=list(values), seed=seed, batch2=batch2, depth=depth)
@@ -56,6 +60,14 @@ class SharedDbSys:
         for i in range(len(snap[3])):
             evs.append(("reopen", i))
             evs.append(("reopen_at_root", i))
+        # a snapshot that is alive WHILE the parent (or the snapshot itself) is modified: at the parent's current root and at
+        # the most recent other root
+        roots = [r for r, _ in snap[3]]
+        idxs = sorted({roots.index(snap[1]), len(roots) - 1})
+        for i in idxs:
+            for who in ("parent", "snapshot"):
+                for op in self.ops:
+                    evs.append(("snap_live", i, who, op))
         return evs
 
     def _open(self, snap):
@@ -71,6 +83,9 @@ class SharedDbSys:
         self.stats["ev:" + ev[0]] += 1
         try:
             t2 = self._apply(d, t1, t2, rootmap, roots, ev)
+        except SnapshotNotIndependent as e:
+            viols.append(V("C04", "snapshot_not_independent", f"an at_root snapshot is not an independent view: {e}", event=ev[0]))
+            return Step(None, None, viols)
         except Exception as e:  # noqa
             viols.append(V("C04", "shared_op_raised", f"{ev[0]} raised {type(e).__name__} on a complete shared database", exc=repr(e)[:200], event=ev[0]))
             return Step(None, None, viols)
@@ -110,6 +125,31 @@ class SharedDbSys:
                 for op in ev[2]:
                     apply_op(b, m, op)
             self._note(rootmap, t.root_hash, m)
+        elif kind == "snap_live":
+            _, i, who, op = ev
+            r_i = roots[i][0]
+            m_i = dict(roots[i][1])
+            r1_before = t1.root_hash
+            with t1.at_root(r_i) as s:
+                if who == "parent":
+                    m = dict(rootmap[t1.root_hash])
+                    apply_op(t1, m, op)
+                    self._note(rootmap, t1.root_hash, m)
+                    if s.root_hash != r_i:
+                        raise SnapshotNotIndependent("the snapshot's root moved when the parent was modified")
+                    bad = self._probe(s, m_i, "live at_root snapshot after a parent update", r_i)
+                    if bad:
+                        raise SnapshotNotIndependent(bad["msg"])
+                else:
+                    m = dict(m_i)
+                    apply_op(s, m, op)
+                    self._note(rootmap, s.root_hash, m)
+                    if t1.root_hash != r1_before:
+                        raise SnapshotNotIndependent("the parent's root moved when the snapshot was modified")
+                    bad = self._probe(t1, rootmap[r1_before], "parent after an update through its at_root snapshot", r1_before)
+                    if bad:
+                        raise SnapshotNotIndependent(bad["msg"])
+                t2 = s
         elif kind == "reopen":
             t2 = HexaryTrie(d, roots[ev[1]][0])
         elif kind == "reopen_at_root":
